@@ -5,4 +5,4 @@ Require Import ExtrOcamlBasic.
 Extraction "c19_model.ml" Qred Qcompare Qopp Qminus c_dblmin fsub rnd64 rexact dyadic of_N
   parse_create parse_profile poly_of_text build mk_string mk_buffer
   values_linear values_bound mrun srun abs lin_closed lin_of_iter range_of_iter fac_of_iter it_value
-  mk_string_sep default_sep abs_key abs_vec range_set range_set_val.
+  mk_string_sep default_sep abs_key abs_vec range_set range_set_val mk_csrc.
